@@ -3,6 +3,7 @@ package c03
 import (
 	"encoding/json"
 	"fmt"
+	"github.com/attestantio/dirk/util/verifhook"
 	"os"
 	"sync"
 	"testing"
@@ -260,6 +261,44 @@ func TestC03Record(t *testing.T) {
 			}
 			mu.Unlock()
 		}
+		// Requests of one wave meet at the entry of their store write (the first waits up to 3 ms for a
+		// second one), so that writes of different keys are in flight together as often as possible.
+		var rvMu sync.Mutex
+		var rvWaiting chan struct{}
+		rvActive := false
+		verifhook.Set(func(ev verifhook.Event) error {
+			if ev.Name != "store.store.enter" {
+				return nil
+			}
+			rvMu.Lock()
+			if !rvActive {
+				rvMu.Unlock()
+
+				return nil
+			}
+			if rvWaiting != nil {
+				close(rvWaiting)
+				rvWaiting = nil
+				rvMu.Unlock()
+
+				return nil
+			}
+			ch := make(chan struct{})
+			rvWaiting = ch
+			rvMu.Unlock()
+			select {
+			case <-ch:
+			case <-time.After(3 * time.Millisecond):
+				rvMu.Lock()
+				if rvWaiting == ch {
+					rvWaiting = nil
+				}
+				rvMu.Unlock()
+			}
+
+			return nil
+		})
+		defer verifhook.Set(nil)
 		st, err = vkit.NewStack(vkit.StackOpts{
 			World: w, Permissions: vkit.AllPermissions(c01.Client),
 			WrapFetcher: func(f fetcher.Service) fetcher.Service { return &vkit.FaultFetcher{Service: f, Plan: plan} },
@@ -294,6 +333,9 @@ func TestC03Record(t *testing.T) {
 				}
 			}
 			mu.Unlock()
+			rvMu.Lock()
+			rvActive = len(wave) > 1
+			rvMu.Unlock()
 			var wg sync.WaitGroup
 			var restartErr error
 			for k := range wave {
